@@ -32,14 +32,16 @@ def ifaceOfIntro (i : Intro.Interface) : Iface :=
 /-- the names of the standard interfaces `generateIntrospectionXML` appends, as this model's strings -/
 def stdNames : List String := stdIfaces.map (fun d => String.ofList d.name)
 
-/-- `getRemoteObject(busName, path)` with `interfaces=None`: introspect, parse, build the proxy. -/
+/-- `getRemoteObject(busName, path)` with `interfaces=None`: introspect, parse, build the proxy.  The returned
+objects are read off the heap position by position (`r.getD …`: an object id always denotes an object in a real
+process; the default only keeps the list positional for ill-formed heaps). -/
 def introspectedProxy (dest : Nat) (path : Str) (exported : List (Str × List Cached))
     (heap : List Interface) (known : List (Str × Nat)) (replace : Bool) : Option Proxy :=
   match generate path exported with
   | .ok (some evs) =>
     match getInterfaces heap known replace evs with
     | .ok st => some { dest := dest, path := String.ofList path,
-                       ifaces := (st.result.filterMap id).map ifaceOfIntro }
+                       ifaces := st.result.map (fun r => ifaceOfIntro (r.getD (Interface.new []))) }
     | .error _ => none
   | _ => none
 
@@ -106,10 +108,8 @@ theorem introspected_interfaces_agree {path : Str} {exported : List (Str × List
       px.dest = dest ∧ px.path = String.ofList path ∧
       ∀ i, i ∈ px.ifaces → i.AgreesIn o ∨ i.name ∈ stdNames := by
   obtain ⟨evs, st, rs, h1, h2, h3, h4⟩ := handler_gen_fresh hobj hdecl hnames heap known replace hfresh
-  have hres : st.result.filterMap id = rs := by
-    rw [h4]; induction rs with
-    | nil => rfl
-    | cons r rs ih => simp
+  have hres : st.result.map (fun r => ifaceOfIntro (r.getD (Interface.new []))) = rs.map ifaceOfIntro := by
+    rw [h4]; simp
   refine ⟨{ dest := dest, path := String.ofList path, ifaces := rs.map ifaceOfIntro }, ?_, rfl, rfl, ?_⟩
   · simp only [introspectedProxy, h1, h2, hres]
   · intro i hi
@@ -133,6 +133,79 @@ theorem introspected_interfaces_agree {path : Str} {exported : List (Str × List
       simp only [stdNames, ifaceOfIntro]
       rw [hs.name]
       exact List.mem_map.mpr ⟨d, hd, rfl⟩
+
+/-- What must hold of ONE declared interface `d` of the object for the introspected proxy to agree on it: the parse
+creates a new object for it (replacement requested, or the name not in the caller's cache), or the caller's cache holds
+under that name an object with the same definition.  The last case is what seeded change C11d / a stale cache violates. -/
+def FreshOrSame (heap : List Interface) (known : List (Str × Nat)) (replace : Bool) (d : Interface) : Prop :=
+  replace = true ∨ kget? known d.name = none ∨
+    ∃ k e, kget? known d.name = some k ∧ heap[k]? = some e ∧ SameDefinition d e
+
+/-- **Agreement of an introspected proxy, interface by interface** (composition with C15
+`known_reused_unless_replaced`).  Whatever the caller's heap and cache hold: the proxy exists and lists one
+interface per declared-or-standard interface, in order; and at every position `j` whose declaration `d` is
+`FreshOrSame`, the proxy's interface agrees with the exported object (or `d` is one of the standard three). -/
+theorem introspected_position_agrees {path : Str} {exported : List (Str × List Cached)} {cs : List Cached}
+    (hobj : exportedGet? exported path = some cs) (hdecl : Declared cs)
+    (hnames : ((decl cs).map (·.name)).Nodup)
+    (heap : List Interface) (known : List (Str × Nat)) (replace : Bool)
+    (o : ExpObj) (ho : o.ifaces = (cs.map (·.iface)).map ifaceOfIntro) (dest : Nat) :
+    ∃ px, introspectedProxy dest path exported heap known replace = some px ∧
+      px.dest = dest ∧ px.path = String.ofList path ∧ px.ifaces.length = (decl cs).length ∧
+      ∀ j d i, (decl cs)[j]? = some d → px.ifaces[j]? = some i → FreshOrSame heap known replace d →
+        i.AgreesIn o ∨ i.name ∈ stdNames := by
+  obtain ⟨evs, st, h1, h2, hlen, hheap, hidx⟩ :=
+    known_reused_unless_replaced hobj hdecl hnames heap known replace
+  refine ⟨{ dest := dest, path := String.ofList path,
+            ifaces := st.result.map (fun r => ifaceOfIntro (r.getD (Interface.new []))) }, ?_, rfl, rfl, ?_, ?_⟩
+  · simp only [introspectedProxy, h1, h2]
+  · simp [HState.result, hlen]
+  · intro j d i hd hi hcond
+    -- the object returned at position j holds the same definition as d
+    have hx : ∃ x, st.result[j]? = some (some x) ∧ SameDefinition d x := by
+      obtain ⟨hreuse, hfresh⟩ := hidx j d hd
+      have fresh_case : (replace = true ∨ kget? known d.name = none) → ∃ x, st.result[j]? = some (some x) ∧
+          SameDefinition d x := by
+        intro hc
+        obtain ⟨id, r, e1, _, e3, e4, _⟩ := hfresh hc
+        exact ⟨r, by simp [HState.result, e1, e3], e4⟩
+      rcases hcond with h | h | ⟨k, e, hk, he, hs⟩
+      · exact fresh_case (Or.inl h)
+      · exact fresh_case (Or.inr h)
+      · cases hr : replace with
+        | true => exact fresh_case (Or.inl hr)
+        | false =>
+          obtain ⟨e1, _⟩ := hreuse hr k hk
+          have hk' : k < heap.length := by
+            rcases Nat.lt_or_ge k heap.length with h | h
+            · exact h
+            · rw [List.getElem?_eq_none h] at he; cases he
+          refine ⟨e, ?_, hs⟩
+          simp [HState.result, e1, hheap k hk', he]
+    obtain ⟨x, hxr, hs⟩ := hx
+    have hi' : i = ifaceOfIntro x := by
+      simp only [List.getElem?_map, hxr, Option.map_some, Option.getD_some, Option.some.injEq] at hi
+      exact hi.symm
+    subst hi'
+    have hdm : d ∈ decl cs := List.mem_of_getElem? hd
+    rcases List.mem_append.mp hdm with hd' | hd'
+    · left
+      have hn1 : ((cs.map (·.iface)).map (·.name)).Nodup := by
+        have : (decl cs).map (·.name) = (cs.map (·.iface)).map (·.name) ++ stdIfaces.map (·.name) := by
+          simp [decl]
+        rw [this] at hnames
+        exact (List.nodup_append.mp hnames).1
+      have hname : (ifaceOfIntro x).name = (ifaceOfIntro d).name := by
+        simp only [ifaceOfIntro]; rw [hs.name]
+      refine ⟨ifaceOfIntro d, ?_, hname.symm, ?_⟩
+      · rw [ho, hname]
+        exact find?_name_of_nodup _ hn1 d hd'
+      · intro n
+        rw [method?_ofIntro, method?_ofIntro, hs.methods]
+    · right
+      simp only [stdNames, ifaceOfIntro]
+      rw [hs.name]
+      exact List.mem_map.mpr ⟨d, hd', rfl⟩
 
 theorem stdNames_eq :
     stdNames = [Gen.Dispatch.introspectPair.1, Gen.Dispatch.peerPair.1, Gen.Dispatch.managedPair.1] := by decide
